@@ -18,7 +18,7 @@ func propC10() Property {
 		Explanation: "FieldMap keeps two views of one set (tagSort.tags drives write(); the tagLookup map drives length()/total()). " +
 			"R1 decides, for every function of the module that updates either view, that the other view is updated on the same paths (insert⇄append-if-absent, delete⇄removal, wholesale⇄wholesale). " +
 			"R2: a field copied from one lookup table into another keeps its full length. R3: the tags excluded from BodyLength/CheckSum accumulation are exactly {8,9,10}/{10} in writer and parser. " +
-			"R4: header/trailer ordering functions rank 8<9<35<rest and 10 last; builders cook then write Header, body, Trailer in that order. R5: cook binds BodyLength/CheckSum to the sums of the three sections.",
+			"R4: header/trailer ordering functions rank 8<9<35<rest and 10 last; builders cook then write Header, body, Trailer in that order. R5: cook binds BodyLength/CheckSum to the sums of the three sections. R6 (shared with C11): the header/trailer tag tables agree with the shipped specs, so what a builder writes into a section parses back into that section.",
 		NotDecided: "numeric correctness of the formatted BodyLength/CheckSum digits, ParseMessage round-trip equality, value escaping.",
 		Rules: []RuleDef{
 			{ID: "C10-R1", Desc: "tags ⇄ tagLookup paired update in every writer", Min: 6, Run: c10R1},
@@ -26,6 +26,7 @@ func propC10() Property {
 			{ID: "C10-R3", Desc: "length/total exclusion sets", Min: 3, Run: c10R3},
 			{ID: "C10-R4", Desc: "section ordering tables and builder write order", Min: 6, Run: c10R4},
 			{ID: "C10-R5", Desc: "cook binds BodyLength and CheckSum to header+body+trailer", Min: 4, Run: c10R5},
+			{ID: "C10-R6", Desc: "header/trailer tag tables agree with the shipped specs (= C11-R1): what is built parses back into the same section", Min: 9, Run: c11R1},
 		},
 	}
 }
